@@ -393,10 +393,10 @@ class Exec:
                         lo = -(o // es)
                         hi = (reg.size - o) // es       # one-past allowed as an address
                         ivs = iv if it.bits == 64 else z3.SignExt(64 - it.bits, iv)
-                        s.oblig.append((list(st.pc), z3.And(ivs >= lo, ivs <= hi), 'pointer index stays inside %s' % reg.name))
+                        s.oblig.append((list(st.pc) + ([g] if g is not None else []), z3.And(ivs >= lo, ivs <= hi), 'pointer index stays inside %s' % reg.name))
                         cur = [((ivs == i) if g is None else z3.And(g, ivs == i), o + i * es) for i in range(lo, hi + 1)]
                         continue
-                    s.oblig.append((list(st.pc), z3.ULT(iv, bound), 'index<%d' % bound))
+                    s.oblig.append((list(st.pc) + ([g0] if g0 is not None else []), z3.ULT(iv, bound), 'index<%d' % bound))
                     cur = [((iv == i) if g is None else z3.And(g, iv == i), o + i * es) for g, o in cur for i in range(bound)]
             res.extend((g, Ptr(q.r, o)) for g, o in cur)
         if len(res) == 1 and res[0][0] is None:
